@@ -3,7 +3,7 @@
 From Coq Require Import List NArith Bool Lia String.
 From Breadlog Require Import Model.Peg Model.Text Model.Regex Model.Glue Model.Tables.
 From Breadlog Require Import Gen.Grammar Gen.Consts.
-From Breadlog Require Import Proofs.PegFacts Proofs.RuleLemmas Proofs.GlueSpec.
+From Breadlog Require Import Proofs.PegFacts Proofs.RuleLemmas Proofs.GlueSpec Proofs.StatementLemmas Proofs.ArgLemmas Proofs.FileSpec.
 From Breadlog Require Import Properties.Common.
 Import ListNotations.
 Open Scope N_scope.
@@ -75,6 +75,126 @@ Theorem C13_written_value_is_recognised : forall (n : N) (w : list N),
   parse_u32 (trim is_ws_tab (dec n ++ w)) = Some n.
 Proof. exact structured_value_roundtrip. Qed.
 
+(* END TO END FROM THE TEXT (Proofs/ArgLemmas.v: rule lemmas for rust_identifier, kvp_key, kvp_value,
+   kvp_args, target_arg, macro_args against the generated grammar, all in their non-atomic context with
+   the implicit skip between every two elements; Proofs/FileSpec.v: the file-level theorem).  On every
+   file of the canonical file language -- whose statements may now carry
+       name !( layout [target: layout "text" layout , layout]
+                      [key [= value] {, key [= value]} [,] layout ; layout] "message"
+   with keys = identifiers and values = digit runs, identifiers or string literals, ANY number of
+   key-values and ANY layout (white space, comments) between all tokens -- the finder returns exactly
+   `expected`, which for such a statement is stmt_stepA: *)
+Theorem C13_canonical_files : forall cfg its fin,
+  items_ok its fin ->
+  let code := render_items its fin in
+  find cfg code = Done (expected cfg code its []).
+Proof. exact find_canonical. Qed.
+
+(* ... in structured style (configured name, no ignore and no no-kvp directive): *)
+Theorem C13_structured_statement : forall cfg code pre n a,
+  let nm := render_name n in
+  let pre_paren := (pre ++ nm ++ [33])%list in                                          (* text before the bracket *)
+  let pre_pk := (pre_paren ++ 40 :: render_lay (a_l0 a) ++ targ_text (a_targ a))%list in (* ... before the key-values *)
+  cfg_structured cfg = true -> macro_of_interest nm cfg = true ->
+  directive_check the_params (p_ignore the_params) code (blen pre) (p_comment_re the_params) = Some false ->
+  directive_check the_params (p_no_kvp the_params) code (blen pre_paren) (p_comment_re the_params) = Some false ->
+  stmt_stepA cfg code pre n a =
+  match ref_more (cores_of (a_kvs a)) pre_pk with
+  | Some (prev, vt) =>
+      (* the FIRST key-value whose key is `ref` and which has a value: the entry is AT that value (byte
+         offset / line / column of the text before it), and the value's text -- which runs up to the
+         delimiter -- trimmed and read as u32 is the reference; not an integer => no reference and an
+         unusable entry (C13_unusable_never_missing): reported, never edited, never a second ref *)
+      Emit (mkEntry (blen prev) (fst (line_col_go prev 1 1)) (snd (line_col_go prev 1 1))
+                    (parse_u32 (trim is_ws_tab vt)) (short_name nm) KStructuredPreExisting None None)
+  | None =>
+      (* no such key-value: a new `ref = N` goes directly after the target argument when there is one,
+         else directly after the opening bracket; it ends with ", " when key-values exist, "; " when not *)
+      let sfx := Some (match a_kvs a with Some _ => nth 0 (p_suffixes the_params) [] | None => nth 1 (p_suffixes the_params) [] end) in
+      let pfx := Some (fst (p_fmt_prefix the_params) ++ p_ref_key the_params ++ snd (p_fmt_prefix the_params))%list in
+      match a_targ a with
+      | Some _ => Emit (mkEntry (blen pre_pk) (fst (line_col_go pre_pk 1 1)) (snd (line_col_go pre_pk 1 1))
+                                None (short_name nm) KStructuredNew pfx sfx)
+      | None => Emit (mkEntry (blen pre_paren + 1) (fst (line_col_go pre_paren 1 1))
+                              (snd (line_col_go pre_paren 1 1) + 1) None (short_name nm) KStructuredNew pfx sfx)
+      end
+  end.
+Proof. exact stmt_stepA_structured. Qed.
+
+(* the key is compared by its own text (the layout pest keeps inside the span of a one-character key
+   makes no difference), and the translated pieces are the documented ones *)
+Theorem C13_ref_key : forall k tail,
+  lay_ok (k_l1 k) tail ->
+  text_eqb (key_span_text k) (p_ref_key the_params) = text_eqb (render_ident (k_key k)) (p_ref_key the_params).
+Proof. exact key_is_ref. Qed.
+
+Theorem C13_pieces :
+  p_ref_key the_params = [114; 101; 102] /\ p_fmt_prefix the_params = ([], [32; 61; 32]) /\
+  nth 0 (p_suffixes the_params) [] = [44; 32] /\ nth 1 (p_suffixes the_params) [] = [59; 32].
+Proof. repeat split; reflexivity. Qed.
+
+(* ... and in message style or under a no-kvp directive the entry is at the message, whatever target and
+   key-values precede it *)
+Theorem C13_message_style_statement : forall cfg code pre n a,
+  let nm := render_name n in
+  let pre_paren := (pre ++ nm ++ [33])%list in
+  let pre_msg := (pre_paren ++ 40 :: render_lay (a_l0 a) ++ targ_text (a_targ a) ++ kv_text (a_kvs a) ++ [34])%list in
+  (cfg_structured cfg = false \/
+   directive_check the_params (p_no_kvp the_params) code (blen pre_paren) (p_comment_re the_params) = Some true) ->
+  macro_of_interest nm cfg = true ->
+  directive_check the_params (p_ignore the_params) code (blen pre) (p_comment_re the_params) = Some false ->
+  stmt_stepA cfg code pre n a =
+  Emit (mkEntry (blen pre_msg) (fst (line_col_go pre_msg 1 1)) (snd (line_col_go pre_msg 1 1))
+                (extract_reference the_params (render_msg (a_msg a))) (short_name nm) KString None None).
+Proof. exact stmt_stepA_message. Qed.
+
+(* non-vacuity of the file-level theorem: a function body with
+     info!(ref = 12, user = "bob"; "hello");            reference 12 found at its value
+     warn!(target: "net", attempts = 3 ; "retry");      new ref after the target, ", "
+     error!("boom");                                     new ref after the bracket, "; "
+     debug!(target: "x", "plain");                      new ref after the target, "; "
+     info!(a, ref = 7 /* c */; "m");                    the value runs up to the delimiter: unusable (finding F10b) *)
+Definition kv_items : list (lay * item) :=
+  [(([], []), IName (mkQ 102 false [(110, false)]));
+   (([32], []), IName (mkQ 102 false []));
+   (([], []), IChar 40);
+   (([], []), IChar 41);
+   (([32], []), IChar 123);
+   (([10;32;32;32;32], []), IStmtA (mkQ 105 false [(110, false);(102, false);(111, false)]) (mkArgs ([], []) None (Some ((mkKv (mkId 114 [101;102]) ([32], []) (Some (([32], []), VDigits 49 [50], ([], []))) true), [(([32], []), (mkKv (mkId 117 [115;101;114]) ([32], []) (Some (([32], []), VStr [MChar 98;MChar 111;MChar 98], ([], []))) false))], ([], []), ([32], []))) [MChar 104;MChar 101;MChar 108;MChar 108;MChar 111]));
+   (([], []), IChar 41);
+   (([], []), IChar 59);
+   (([10;32;32;32;32], []), IStmtA (mkQ 119 false [(97, false);(114, false);(110, false)]) (mkArgs ([], []) (Some (mkTarg ([32], []) [MChar 110;MChar 101;MChar 116] ([], []), ([32], []))) (Some ((mkKv (mkId 97 [116;116;101;109;112;116;115]) ([32], []) (Some (([32], []), VDigits 51 [], ([32], []))) false), [], ([], []), ([32], []))) [MChar 114;MChar 101;MChar 116;MChar 114;MChar 121]));
+   (([], []), IChar 41);
+   (([], []), IChar 59);
+   (([10;32;32;32;32], []), IStmt (mkQ 101 false [(114, false);(114, false);(111, false);(114, false)]) ([], []) [MChar 98;MChar 111;MChar 111;MChar 109]);
+   (([], []), IChar 41);
+   (([], []), IChar 59);
+   (([10;32;32;32;32], []), IStmtA (mkQ 100 false [(101, false);(98, false);(117, false);(103, false)]) (mkArgs ([], []) (Some (mkTarg ([32], []) [MChar 120] ([], []), ([32], []))) None [MChar 112;MChar 108;MChar 97;MChar 105;MChar 110]));
+   (([], []), IChar 41);
+   (([], []), IChar 59);
+   (([10;32;32;32;32], []), IStmtA (mkQ 105 false [(110, false);(102, false);(111, false)]) (mkArgs ([], []) None (Some ((mkKv (mkId 97 []) ([], []) None true), [(([32], []), (mkKv (mkId 114 [101;102]) ([32], []) (Some (([32], []), VDigits 55 [], ([32], [(CBlock [32;99;32], [])]))) false))], ([], []), ([32], []))) [MChar 109]));
+   (([], []), IChar 41);
+   (([], []), IChar 59);
+   (([10], []), IChar 125)].
+Definition kv_fin : lay := ([10], []).
+
+Example C13_canonical_nonvacuous :
+  items_ok kv_items kv_fin /\
+  exists e1 e2 e3 e4 e5,
+    expected (mkConfig true [([108;111;103], [105;110;102;111]); ([108;111;103], [119;97;114;110]);
+                             ([108;111;103], [101;114;114;111;114]); ([108;111;103], [100;101;98;117;103])])
+             (render_items kv_items kv_fin) kv_items [] = [e1; e2; e3; e4; e5] /\
+    (e_pos e1, e_line e1, e_col e1, e_ref e1, e_kind e1) = (25, 2, 17, Some 12, KStructuredPreExisting) /\
+    (e_pos e2, e_line e2, e_col e2, e_ref e2, e_kind e2, e_suffix e2) = (78, 3, 26, None, KStructuredNew, Some [44; 32]) /\
+    (e_pos e3, e_line e3, e_col e3, e_kind e3, e_suffix e3) = (114, 4, 12, KStructuredNew, Some [59; 32]) /\
+    (e_pos e4, e_line e4, e_col e4, e_kind e4, e_suffix e4) = (147, 5, 25, KStructuredNew, Some [59; 32]) /\
+    (e_pos e5, e_ref e5, e_kind e5, usable e5) = (176, None, KStructuredPreExisting, false).
+Proof.
+  split.
+  - cbn. repeat split; try reflexivity; try exact I; try discriminate; try (eexists; reflexivity).
+  - do 5 eexists. vm_compute. repeat split; reflexivity.
+Qed.
+
 (* non-vacuity on real text through the generated grammar: target + two key-values -> after the
    target, comma; none -> semicolon; ref = 12 after another key-value is recognised; ref = x unusable *)
 Example C13_nonvacuous :
@@ -92,3 +212,8 @@ Proof. cbv zeta. repeat split; eexists; vm_compute; repeat split; reflexivity. Q
 Print Assumptions C13_structured_entry.
 Print Assumptions C13_unusable_never_missing.
 Print Assumptions C13_written_value_is_recognised.
+Print Assumptions C13_canonical_files.
+Print Assumptions C13_structured_statement.
+Print Assumptions C13_ref_key.
+Print Assumptions C13_pieces.
+Print Assumptions C13_message_style_statement.
